@@ -226,6 +226,8 @@ func (self *CallStm) format(printer *printer, prefix string) {
 			self.Modifiers.Bindings = &BindStms{
 				Node: self.Node,
 			}
+			// The call's comments were printed above the call already.
+			self.Modifiers.Bindings.Node = NewAstNode(self.Node.Loc)
 		}
 		printer.mustWriteString(") using (\n")
 		// Convert unbound-form mods to bound form.
